@@ -168,9 +168,14 @@ impl RxMode {
             LorawanRxMode::Single { ms } => {
                 // Since both sx126x and sx127x have a preamble-based timeout, we translate
                 // the additional millisecond delay into symbols and add it to the amount of preamble symbols.
-                const PREAMBLE_SYMBOLS: u16 = 13; // 12.25
-                let num_symbols = PREAMBLE_SYMBOLS + bb.delay_in_symbols(ms);
-                RxMode::Single(num_symbols)
+                // The preamble is 12.25 symbols; round preamble plus margin up together, in
+                // quarter symbols. Rounding the preamble up to 13 and the margin down
+                // separately could leave the window up to a quarter symbol short.
+                const PREAMBLE_QUARTER_SYMBOLS: u64 = 49; // 12.25
+                let t_sym_us = ((1u64 << bb.sf.factor()) * 1_000_000) / u64::from(bb.bw.hz());
+                let margin = (4 * u64::from(ms) * 1000).div_ceil(t_sym_us);
+                let num_symbols = (PREAMBLE_QUARTER_SYMBOLS + margin).div_ceil(4);
+                RxMode::Single(num_symbols.min(u64::from(u16::MAX)) as u16)
             }
         }
     }
